@@ -119,8 +119,11 @@ def gen_case(tape, tier):
             ops.append({"op": "reopen", "exit": bool(tape.coin(0.5, "exit"))})
         else:
             ops.append({"op": o})
-    return {"backend": backend, "full": full, "mask": mask, "ops": ops, "coarse_mtime": bool(tape.coin(0.5, "coarse-mtime")),
+    case = {"backend": backend, "full": full, "mask": mask, "ops": ops, "coarse_mtime": bool(tape.coin(0.5, "coarse-mtime")),
             "relative": relative}
+    if backend == "file_array" and tape.coin(0.25, "filename-template"):
+        case["template"] = tape.pick(["a_{:d}.pickle", "elem-{:d}.bin", "__{:d}__.pickle.v2"], "template")
+    return case
 
 
 def simplify(case):
@@ -258,10 +261,12 @@ def _run_case(case, exec_seed=None, exec_tape=None):
         def make():
             # "the same folder": with a relative path that is the path as seen from the current working directory
             f = os.path.relpath(folder) if case.get("relative") else folder
-            return cls(f, m.ext, m.internal or None, m.smask if m.internal else None)
+            kw = {"filename_template": case["template"]} if case.get("template") else {}
+            return cls(f, m.ext, m.internal or None, m.smask if m.internal else None, **kw)
 
         idx = [0]
         arr_box = [None]
+        kept = []
         mt_state = {"mtimes": {}, "now": 1_700_000_000}
 
         def segment():
@@ -301,6 +306,11 @@ def _run_case(case, exec_seed=None, exec_tape=None):
                         if arr.dump_in_subprocess:
                             m.dump(k, val)
                     probes["dump"] = probes.get("dump", 0) + 1
+                    for (i0, res0, exp0) in kept:
+                        if canon(res0) != exp0:
+                            V("aliasing", "earlier-to_array-result-changed-by-a-later-dump", {"to_array_step": i0, "dump_step": i,
+                              "was": repr(exp0)[:200], "now": repr(canon(res0))[:200]})
+                            return
                 elif o == "get":
                     k = _key(op["key"])
                     got = arr[k]
@@ -329,6 +339,9 @@ def _run_case(case, exec_seed=None, exec_tape=None):
                         exp = _nest(m.ext, lambda e: MASKED if miss[e] else canon(m.sub(e)))
                     if canon(got) != exp:
                         V("model", "to_array-differs", {"step": i, "splat": splat, "got": repr(canon(got))[:300], "expected": repr(exp)[:300]})
+                    else:
+                        kept.append((i, got, exp))  # a result handed out is a value: later dumps must not rewrite it
+                        del kept[:-3]
                     probes["read"] = probes.get("read", 0) + 1
                 elif o == "mask":
                     got = np.asarray(np.ma.getdata(arr.mask)).astype(bool)
@@ -539,6 +552,8 @@ def _run_case(case, exec_seed=None, exec_tape=None):
         probes["internal_axes"] = 1
     if case.get("coarse_mtime"):
         probes["coarse_mtime"] = 1
+    if case.get("template"):
+        probes["filename_template"] = 1
     out = {"violations": viol, "probes": probes, "evaluations": 1, "yields": steps, "sim_time": 0.0,
            "exec_tape": tape.recorded(), "digest": C.digest_of(digests), "nontrivial": []}
     if probes.get("dump") and probes.get("read"):
